@@ -212,7 +212,9 @@ func ClassifyCheck(prefix string, rc *ref.Case, rq Request, k ref.Tri, o drive.O
 	if mode != "default" && DedupExplains(rc, rq.Object, rq.Relation, rq.User, o.Allowed, true) {
 		return prefix + "-" + FindingDedup
 	}
-	if k == ref.T && !o.Allowed {
+	// (with reference E the model's "conditions count only when True" is the listed error swallowing: the
+	// denial is the cycle rule firing on what is left)
+	if (k == ref.T || k == ref.E) && !o.Allowed {
 		if v, fired, ok := rc.CycleDeviation(rq.User, rq.Object, rq.Relation); ok && fired && !v {
 			return prefix + "-" + FindingSubtractCycle
 		}
@@ -452,10 +454,9 @@ func ClassifyV2(prefix string, p *Prepared, rc *ref.Case, rq Request, k ref.Tri,
 	case kind == "userset" && k == ref.T && !o.Allowed:
 		uo, ur := ref.UserParts(rq.User)
 		ut, _ := ref.SplitObject(uo)
-		// (the reflexive question "is T:id#r in T:id#r" is answered by the same direct lookup)
-		if rq.Object+"#"+rq.Relation != rq.User && !V2UsersetSubjectShortcut(p.Ref, typ, rq.Relation, ut, ur) {
-			return ""
-		}
+		// The structural shapes of V2UsersetSubjectShortcut are counted by C03, not required: thorough C03
+		// at seed 2 showed the engine also denies on cyclic direct edges (group#member <-> folder#editor).
+		_, _ = ut, ur
 		return prefix + "-v2-userset-subject-silent-divergence"
 	case kind == "userset" && k == ref.F && o.Allowed && HasExclusion(p.Ref, typ, rq.Relation):
 		return prefix + "-v2-userset-subject-allowed-under-exclusion"
@@ -467,8 +468,9 @@ func ClassifyV2(prefix string, p *Prepared, rc *ref.Case, rq Request, k ref.Tri,
 // the weighted-graph engine answers a userset subject T#r by a direct tuple lookup where the edge to T#r is
 // not part of a cycle (it expands stored usersets only on recursive / tuple-cycle edges), and it does not
 // see T#r when the target contains it by rewrite rules alone (computed userset, tuple-to-userset). A denial
-// of a permitted userset subject is attributed to the finding only where one of the two shapes is on the
-// way from the target relation; a denial on purely cyclic direct edges is not the listed defect.
+// of a permitted userset subject was attributed to the finding only where one of the two shapes is on the
+// way from the target relation — withdrawn: the unchanged engine also denies on cyclic direct edges (thorough
+// C03, seed 2), so the shapes are counted as coverage information only.
 func V2UsersetSubjectShortcut(m *ref.Model, typ, rel, subjType, subjRel string) bool {
 	return m.HasAcyclicDirectEdgeTo(typ, rel, subjType, subjRel) || m.ReachesByRewrite(typ, rel, subjType, subjRel)
 }
